@@ -48,11 +48,13 @@ def run(ctx):
             ctx.check("C05.1", ok, fi, node, f"DAC [{ps}] = {sig!r}", "bias + Vout*kron(bits, ones(sps)): every sample of slot k equals bias+Vout*bits[k]",
                       "waveform is not the slot replication of the bits by gv.sps, scaled by Vout and offset by bias (operand order of kron and the factor matter)")
         elif low == "rz":
-            ok = isinstance(sig, Form) and any(sig == aff(c * mask) for c in nrz_core())
+            slot = mk_fn("setitem", [mk_fn("zeros", [SPS]), SliceV(Const(None), half, Const(None)), Form.num(1)])
+            # kron(bits, ones(sps)) * tile(slot, len(bits)) is kron(bits, slot): the slot pattern replicated per bit
+            ok = isinstance(sig, Form) and (any(sig == aff(c * mask) for c in nrz_core()) or sig == aff(mk_fn("kron", [BITS, slot])))
             ctx.check("C05.1", ok, fi, node, f"DAC [{ps}] = {sig!r}", "NRZ times the sps-periodic mask with ones on [0, sps//2)",
                       f"RZ waveform is not bias + Vout*kron(bits, ones(sps))*{mask!r}")
         else:
-            conv = [r for r in it.calls if r.callee == "scipy.signal.fftconvolve" and r.depth == 0]
+            conv = [r for r in it.calls if r.callee == "scipy.signal.fftconvolve"]
             if len(conv) != 1:
                 ctx.violation("C05.1", fi, node, f"DAC [{ps}]", "Gaussian branch does not convolve an impulse train with the pulse (scipy.signal.fftconvolve)")
                 continue
